@@ -184,8 +184,17 @@ template <typename CharT, typename SizeT>
 template <typename CharT>
 [[nodiscard]] constexpr auto strstr_impl(CharT* haystack, CharT* needle) noexcept -> CharT*
 {
+    if (*needle == CharT(0)) {
+        return haystack;
+    }
     while (*haystack != CharT(0)) {
-        if ((*haystack == *needle) && (strcmp(haystack, needle) == 0)) {
+        auto* h = haystack;
+        auto* n = needle;
+        while (*n != CharT(0) && *h == *n) {
+            ++h;
+            ++n;
+        }
+        if (*n == CharT(0)) {
             return haystack;
         }
         haystack++;
